@@ -605,6 +605,7 @@ from ..mutants import Mut  # noqa: E402
 
 _F = "urwid/signals.py"
 MUTANTS = [
+    Mut("twin-disconnect-by-key-try-except", "urwid/signals.py", "Signals.disconnect_by_key", "                with contextlib.suppress(ValueError):\n                    handlers.remove(h)\n", "                try:\n                    handlers.remove(h)\n                except ValueError:\n                    pass\n", twin=True),
     Mut("twin-emit-result-after-lookup", "urwid/signals.py", "Signals.emit", "        result = False\n        handlers = getattr(obj, self._signal_attr, {}).get(name, [])\n", "        handlers = getattr(obj, self._signal_attr, {}).get(name, [])\n        result = False\n", twin=True),
     Mut("disconnect-by-key-rewrites-list", "urwid/signals.py", "Signals.disconnect_by_key", "        for h in list(handlers):\n            if h[0] is key:\n                with contextlib.suppress(ValueError):\n                    handlers.remove(h)\n", "        handlers[:] = [h for h in handlers if h[0] is not key]\n", "ATOMIC|signals.Signals.disconnect_by_key|disconnect_by_key: handler list rewritten from a traversal of itself"),
     Mut("disconnect-by-key-filter-writeback", "urwid/signals.py", "Signals.disconnect_by_key", "        for h in list(handlers):\n            if h[0] is key:\n                with contextlib.suppress(ValueError):\n                    handlers.remove(h)\n", "        handlers[:] = list(filter(lambda h: h[0] is not key, handlers))\n", "ATOMIC|signals.Signals.disconnect_by_key|disconnect_by_key: handler list rewritten from a traversal of itself"),
